@@ -118,6 +118,15 @@ theorem lvlAt_deepest (t : Tree) (l : Loc) : lvlAt t (deepest t l) = some (getIn
     | some c => simp [lvlAt_cons, hc, ih c]
 
 /-- existence is prefix-closed -/
+theorem deepest_isPrefix (t : Tree) (loc : Loc) : (deepest t loc).isPrefixOf loc = true := by
+  induction loc generalizing t with
+  | nil => simp [deepest]
+  | cons x xs ih =>
+    unfold deepest
+    cases h : findChild t.kids x with
+    | none => simp
+    | some c => simp [ih c]
+
 theorem isSome_lvlAt_take (t : Tree) (l : Loc) (k : Nat) (h : (lvlAt t l).isSome = true) :
     (lvlAt t (l.take k)).isSome = true := by
   induction l generalizing t k with
